@@ -895,7 +895,9 @@ fn shape_cases(ctx: &Ctx, rep: &mut Report, threads: usize) {
             }
             if real[l] == fixed {
                 rep.count("shape:real=fixed-model");
-            } else {
+            } else if real[l] == expect {
+                // (when the real code is wrong the failure above is the report; the model of the
+                // repaired selection is proved to give the first match)
                 rep.disagree(
                     &format!("listswitch:{}", key),
                     &reqs[(ci * 6 + l) * 2],
